@@ -97,6 +97,7 @@ type Call struct {
 	UseTag bool
 	HasOpt bool
 	OddKeys bool // the data map also carries an empty key and a nil value (the pool must ignore both)
+	TwinOf  int  // >= 0: this call repeats call TwinOf through the variant without a stop tag (C14: tag never set => identical)
 	Plan   map[int]*RulePlan
 	Hold   bool // park on the hold gate at the first yield of the first rule (probe rounds)
 
